@@ -4,6 +4,7 @@ import UPVerif.Core.Problem
 import UPVerif.Core.PddlPrint
 import UPVerif.Core.PddlRead
 import UPVerif.Core.PddlNorm
+import UPVerif.Drv.C18TTPlan
 /-!
 Line-protocol handler for C18 (and, through `read`, for C21).
 
@@ -13,6 +14,7 @@ Line-protocol handler for C18 (and, through `read`, for C21).
 (rt     <problem> (kind F*) (ren R*) [raw])    -> (ok <domain-tree> <problem-tree> <problem read back from them> <T|F: it equals pddlNorm>) | unsupported | error
 (plan   (ren R*) (steps (action obj*)*) [problem]) -> (ok (<tree>*) (<steps read back>)) | unsupported
 (num    <q>)                                   -> (ok <decimal text> <q parsed back>) | inexact
+(ttplan …) (ttread …)                          -> see Drv/C18TTPlan.lean
 R ::= (problem new) | (ty old new) | (fluent old new) | (obj old new) | (action old new) | (param old ty new) | (var old ty new)
 ```
 -/
@@ -110,6 +112,6 @@ def handle : Sexp → Sexp
           | none => .atom "error"]
       | none => .atom "inexact"
     | none => .atom "bad-case"
-  | _ => .atom "bad-case"
+  | s => Drv.C18TTPlan.handle s                 -- `ttplan`, `ttread`: plan text, character level (Core/PddlTTPlan.lean)
 
 end UPVerif.Drv.C18
